@@ -221,10 +221,24 @@ def run(tier, seed, replay):
     # expected `from ...@0` items per server frame from the verdicts
     vi = 0
     pending = []
+    attacker_on, server_on = False, False
     for i, l in enumerate(all_lines):
+        t_ = l.split()
+        if t_[0] == "cfg":
+            attacker_on, server_on = False, False
+        elif t_[0] == "start":
+            server_on = True
+        elif t_[0] == "stop":
+            server_on, attacker_on = False, False
+        elif t_[0] == "connect" and t_[1] == "0" and server_on:
+            attacker_on = True
+        elif t_[0] == "disconnect" and t_[1] == "0":
+            attacker_on = False
         if l.startswith("inject"):
             f = l.split()
-            pending.append((logical_channel(i, int(f[2])), verdicts[vi] if vi < len(verdicts) else "?"))
+            # the harness hands the bytes to the server only while the attacker's connection exists
+            if attacker_on:
+                pending.append((logical_channel(i, int(f[2])), verdicts[vi] if vi < len(verdicts) else "?"))
             vi += 1
         elif l.startswith("sframe"):
             blk = impl_blocks[i] if i < len(impl_blocks) else []
@@ -282,7 +296,9 @@ def run(tier, seed, replay):
                             # never reached server logic: messages after a malformed one must still be served
                             lost_valid.append(dict(problem=dict(step_index=i, step=l, why="a well-formed client message delivered in this frame never reached server logic "
                                                                 "(expected %s, observed %r): the server stopped serving after a malformed message" % (it, got)),
-                                                   script=[x for x in all_lines[max(0, i - 80):i + 1]]))
+                                                   script=[x for x in all_lines[max(0, i - 80):i + 1]],
+                                                   context=dict(block=blk, scenario=[x for x in all_lines[:i] if x.startswith("cfg")][-1],
+                                                                recent_steps=[x for x in all_lines[max(0, i - 400):i] if not x.startswith(("inject", "deliver"))][-30:])))
             pending = []
             if len(got) >= 3:
                 nontriv.add(i)
@@ -313,7 +329,7 @@ def run(tier, seed, replay):
     rep.cov["disagreements_checked"] = len(diverged)
     if oracle_fail:
         f = oracle_fail[0]
-        rep.violation("oracle", dict(what="a client message crashes or exhausts the server, or the other client no longer converges", problem=f["problem"], script=f.get("script")), True)
+        rep.violation("oracle", dict(what="a client message crashes or exhausts the server, or the other client no longer converges", problem=f["problem"], script=f.get("script"), context=f.get("context")), True)
     elif diverged:
         rep.violation("correspondence", dict(what="byte-level models (Wire.AckCodec/TriggerCodec/HarnessPayload) or the isolation prediction of RV.Events.Remote disagree with the implementation",
                                              first=diverged[:5]), False)
